@@ -19,9 +19,9 @@ THEOREMS = ["Lbfgsb.C10.subspace_newton_point_curv", "Lbfgsb.C09.gauss_solves", 
             "Lbfgsb.C09.code_direction_descent", "Lbfgsb.C09.masked_smw", "Lbfgsb.C09.subspace_newton_point",
             "Lbfgsb.C09.subspace_model_no_increase", "Lbfgsb.C09.subspace_direction_descent", "Lbfgsb.C09.subspace_newton_point_nopairs",
             "Lbfgsb.C09.subspace_direction_descent_nopairs",
-            "Lbfgsb.C09.subspace_point_units", "Lbfgsb.C09.subspace_units_nofactor", "Lbfgsb.C09.iteration_units", "Lbfgsb.C09.iteration_units_nofloor", "Lbfgsb.C09.iteration_objective_scale"]
+            "Lbfgsb.C09.subspace_point_units", "Lbfgsb.C09.subspace_units_nofactor", "Lbfgsb.C09.iteration_units", "Lbfgsb.C09.iteration_units_nofloor", "Lbfgsb.C09.iteration_objective_scale", "Lbfgsb.C09.subspace_point_shift"]
 MODULES = ["LbfgsbVerif.Props.C10Kernel", "LbfgsbVerif.Props.C09Solve", "LbfgsbVerif.Props.C09", "LbfgsbVerif.Props.C09Model", "LbfgsbVerif.Props.C09Run",
-            "LbfgsbVerif.Props.C09Units", "LbfgsbVerif.Props.C09UnitsKernel"]
+            "LbfgsbVerif.Props.C09Units", "LbfgsbVerif.Props.C09UnitsKernel", "LbfgsbVerif.Props.C09Shift"]
 
 
 def dense_from_pairs(S: np.ndarray, Y: np.ndarray) -> np.ndarray:
